@@ -16,7 +16,7 @@ PROPS = {}
 
 PROPS["C02"] = dict(
     level="proof",
-    verus=["c02_anchor", "c02_dispatch", "c02_matchers", "c02_regex"],
+    verus=["c02_anchor", "c02_dispatch", "c02_matchers", "c02_regex", "c11_pattern_block"],
     labels=["C02."] + MASK,
     kani=[],
     witness=["c02_remainder.rs"],
@@ -26,7 +26,8 @@ PROPS["C02"] = dict(
              "in the dispatch unit the per-shape matchers are uninterpreted; their bodies are proved in unit c02_matchers against their own contracts (the two units are not composed mechanically)",
              "RegexManager::matches (regex cache keyed by rule id) and the regex crate are not under contract: rx_spec is uninterpreted in the matcher unit",
              "compile_regex (unit c02_regex): the four Lazy<Regex> substitutions (their pattern texts pinned token for token), str::replace unescaping and the regex builders are uninterpreted; proved is the wiring only: order of the substitutions, placement of the `|` anchors outside the translated body, empty pattern => match-all, one pattern => regex / several => regex set of exactly those patterns, Unicode mode off; format!(\"{}{}{}\") = concatenation (axiom for that literal); the pattern iterator materialised (R5)",
-             "Request well-formedness: the request hostname is a slice of the request URL (url_parser; preparsed() callers)"],
+             "Request well-formedness: the request hostname is a slice of the request URL (url_parser; preparsed() callers)",
+             "pattern/anchor/hostname extraction (unit c11_pattern_block, two R7 block lifts of NetworkFilter::parse): where the host part of a `||` rule is cut, which range of the pattern text is the body (trailing/leading '*' dropped, a lone '^' after the host and scheme-only bodies consumed) and that the stored body is that text; the anchor / regex BITS the block sets are not in the contract; R9 lift of the `[/^*]` regex = first of these three bytes; to_ascii_lowercase uninterpreted; a String/&str with equal bytes has the same text (utf8_text)"],
     assumptions=["machine integers are modelled exactly by Verus (overflow checked)"],
     level_text="Verus proves, for all strings, that hostname anchoring holds exactly at label-aligned occurrences (sound and complete), "
                "that the anchor/regex flag combination selects the matcher the pattern syntax denotes, the slicing safety and result of the "
@@ -276,16 +277,16 @@ PROPS["C09"] = dict(
 
 PROPS["C11"] = dict(
     level="proof",
-    verus=["c11_lists"],
-    labels=["C11."],
+    verus=["c11_lists", "c11_pattern_block", "c03_option_text"],
+    labels=["C11.", "C03.option_text.safety"],
     kani=[],
-    trusted=["NetworkFilter::parse / parse_hosts_style / CosmeticFilter::parse bodies (Lazy<Regex>, closures, macro_rules!): uninterpreted results - their own slicing is NOT under contract",
+    trusted=["NetworkFilter::parse: the pattern / anchor / hostname extraction block (every string slice of it) and the option-name table are under contract (units c11_pattern_block, c03_option_text, c03_apply_options, c03_parse_mask); the hostname normalisation (to_lowercase / idna), parse_hosts_style and CosmeticFilter::parse bodies are NOT: uninterpreted results",
              "str::trim, split_whitespace, lines (R5/R6 shims)", "memchr / memrchr (shims)", "UTF-8 facts: an ASCII byte has a character boundary on both sides; both ends of a string are boundaries; ASCII text is encoded byte for character",
              "per-line error isolation in parse_filters_with_metadata (map/filter_map closure pipeline) is not under contract"],
     assumptions=[],
     level_text="Verus proves for ALL UTF-8 strings that AbstractNetworkFilter::parse (offset arithmetic around '@@', '$', '|', '||') and the metadata cut-off loop never slice out of bounds or off a character boundary and terminate; "
                "that parse_filter routes each line to the parser its detected kind and the format name, returns exactly that parser's rule, never yields a rule of the excluded kind, and that hosts lines only yield parse_hosts_style rules; "
-               "the unreachable!() arm of the hosts branch is proved unreachable",
+               "the unreachable!() arm of the hosts branch is proved unreachable; and that the pattern block of NetworkFilter::parse (hostname cut, '*' trimming, scheme detection) takes no slice out of bounds or off a character boundary and overflows no index, for every pattern string",
     level_note="the big per-kind parsers are uninterpreted; line independence of the list-level pipeline is not decided",
     design_ref="DESIGN.md section 4, C11",
 )
